@@ -391,7 +391,7 @@ func judge(entry string, c Case, e expectation, m *material, l *live, cfg *tls.C
 			return nil, kit.Failf("%s: the VerifyPeerCertificate callback was dropped", what)
 		}
 		if p := reflect.ValueOf(cfg.VerifyPeerCertificate).Pointer(); p != l.cbPointer {
-			return nil, kit.Failf("%s: VerifyPeerCertificate is not the supplied function (code pointer %#x, supplied %#x)", what, p, l.cbPointer)
+			return nil, kit.Failf("%s: VerifyPeerCertificate is not the supplied function (different code pointer)", what)
 		}
 		before := atomic.LoadInt32(l.cbCalls)
 		got := cfg.VerifyPeerCertificate(nil, nil)
@@ -404,7 +404,7 @@ func judge(entry string, c Case, e expectation, m *material, l *live, cfg *tls.C
 		return nil, kit.Failf("%s: SessionTicketsDisabled=%v, want %v", what, cfg.SessionTicketsDisabled, c.NoTickets)
 	}
 	if cfg.ClientSessionCache != l.cache {
-		return nil, kit.Failf("%s: ClientSessionCache is %v, want the supplied cache %v", what, cfg.ClientSessionCache, l.cache)
+		return nil, kit.Failf("%s: ClientSessionCache is not the supplied one (configured: %v, supplied: %v)", what, cfg.ClientSessionCache != nil, l.cache != nil)
 	}
 
 	// client identity
